@@ -93,7 +93,7 @@ def _work(arg):
         except Exception:
             pass
         _QUIET_DONE = True
-    faulthandler.dump_traceback_later(900, exit=True)
+    faulthandler.dump_traceback_later(2400 if tier == 'quick' else 7200, exit=True)      # last-resort guard for a stuck worker (a unit takes seconds to minutes)
     try:
         from . import checks
         spec = checks.legs_for(check_id, tier)[leg_idx]
